@@ -55,13 +55,18 @@ SHAPES = (lambda r: np.exp(-r), lambda r: (0.3 + r) * np.exp(-r * r), lambda r: 
 
 
 def radial_grids():
+    from grid.basegrid import OneDGrid
     from grid.onedgrid import ClenshawCurtis, GaussChebyshev
     from grid.rtransform import BeckeRTransform, LinearFiniteRTransform
 
     with warnings.catch_warnings():
         warnings.simplefilter("ignore")
         return {"becke-gc12": BeckeRTransform(1e-3, 1.2).transform_1d_grid(GaussChebyshev(12)),
-                "linear-cc9-r0": LinearFiniteRTransform(0.0, 4.0).transform_1d_grid(ClenshawCurtis(9))}
+                "linear-cc9-r0": LinearFiniteRTransform(0.0, 4.0).transform_1d_grid(ClenshawCurtis(9)),
+                # a first shell at a tiny but non-zero radius (inside every "r is zero" threshold of the code, outside
+                # exact zero): added after seeded change C09-F.  Used with the centre at the origin only and with radial
+                # factors that do not vanish at the origin, so the l >= 1 components at that shell are visible.
+                "tiny-first": OneDGrid(np.array([2e-9, 0.3, 0.8, 1.5, 2.4, 3.5]), np.array([1e-9, 0.3, 0.5, 0.7, 0.9, 1.1]), (0, np.inf))}
 
 
 def build_grid(rname, method, mixed, ci, rot):
@@ -143,7 +148,7 @@ def _grid_case(arg):
     for row in rows:
         l, m = lm[row]
         for si, shape in enumerate(SHAPES):
-            gfun = lambda x, l=l, shape=shape: x**l * shape(x)
+            gfun = (lambda x, l=l, shape=shape: x**l * shape(x)) if rname != "tiny-first" else (lambda x, l=l, shape=shape: (1.0 + 0.3 * l) * shape(x))
             f = gfun(r) * Y[row]
             c2 = dict(case, l=l, m=m, shape=si)
             tag = "band-limited"
@@ -366,6 +371,10 @@ def run(ctx):
     if not ctx.thorough:
         # quick: every (radial grid, method, mixed) with a deviation-bounded centre/rotation alphabet
         jobs = [j for j in jobs if (j[3], j[4]) in ((0, 0), (1, 7))]
+    for method in DEGREES if ctx.thorough else ("lebedev", "maxdet"):
+        for mixed in (False, True):
+            for rot in (0, 7):
+                jobs.append(("tiny-first", method, mixed, 0, rot, ctx.seed))
     for res in lattice.pmap(_grid_case, jobs, ctx.workers):
         if len(ctx.samples) > 8:
             res["samples"] = []
